@@ -1065,6 +1065,9 @@ class Interp(object):
             raise Raised('AttributeError', attr)
         if isinstance(obj, Abstract):
             return Abstract('attr', (obj, attr))
+        from .extmodels import Interp1d
+        if isinstance(obj, Interp1d) and attr in ('x', 'y'):
+            return obj.x if attr == 'x' else obj.y
         if is_array(obj) or isinstance(obj, Quantity):
             return self.array_attr(obj, attr, st)
         if isinstance(obj, Unit):
